@@ -71,7 +71,15 @@ def run(prog):
         r = strip(te.ret)
         K = fn.npath
 
+        # a search that works on ONE shared `&mut PartialModel` instead of a copy per node: which assignment the model
+        # holds when a bound is evaluated, or when the recursion starts, is a matter of statement order, not of which term
+        # is paired with which — BB2/BB3/BB4 read terms, so there they answer "undecided" and PM's shared-model rule
+        # (every set is undone or restored before the return) carries the obligation
+        shared = any("&mut" in fn.locals[i]["s"] and "PartialModel" in fn.locals[i]["s"] for i in range(1, fn.argc + 1))
+
         def put(rule, errs, okmsg, line=None, und=False):
+            if shared and errs and rule.split(":")[0] in ("BB2", "BB3", "BB4"):
+                errs = ["?" + e.lstrip("?") + " (shared model: decided by PM shared-model-restored)" for e in errs]
             out.append(inst("BB", "%s:%s" % (K, rule), UNDECIDED if und else verdict_of(errs), fn, line,
                             "; ".join(e.lstrip("?") for e in errs) if errs else okmsg))
 
